@@ -30,6 +30,19 @@ Definition two60 : N := 1152921504606846976.
 Definition two64 : N := 18446744073709551616.
 Definition u32 (x : N) : N := x mod two32.
 
+(* ------------------------------------------------------------------ probed constants *)
+
+(* constants of the compiled code the theorems' side conditions mention; the harness probes them
+   behaviourally (--params: bisection over download_add for the accepted piece lengths, FileList::
+   left_bytes around powers of two) and the extracted [probed_ok] is evaluated on them every run *)
+Record probed := mkProbed { pr_left_shift : N; pr_pl_min_excl : N; pr_pl_max : N }.
+
+Definition default_probed : probed := mkProbed 60 1024 536870912.
+
+(* left_bytes must not refuse streams up to 2^60; every loadable piece length fits uint32 *)
+Definition probed_ok (p : probed) : bool :=
+  (60 <=? pr_left_shift p) && (pr_pl_max p <? two32).
+
 (* ------------------------------------------------------------------ layout *)
 
 Record file := mkFile { f_off : N; f_size : N; f_pad : bool; f_r1 : N; f_r2 : N }.
